@@ -946,7 +946,7 @@ gf_inv(unsigned char a);
  * @brief Generate a matrix of coefficients to be used for encoding.
  *
  * Vandermonde matrix example of encoding coefficients where high portion of
- * matrix is identity matrix I and lower portion is constructed as 2^{i*(j-k+1)}
+ * matrix is identity matrix I and lower portion is constructed as 2^{i*(j-k)}
  * i:{0,k-1} j:{k,m-1}. Commonly used method for choosing coefficients in
  * erasure encoding but does not guarantee invertable for every sub matrix. For
  * large pairs of m and k it is possible to find cases where the decode matrix
